@@ -96,6 +96,29 @@ func (vc *VC) MixHeap(valSort Sort, old Term, keep Term) Term {
 	return vc.LambdaHeap("hx", valSort, Ite(keep, Select(old, q), Select(fresh, q)))
 }
 
+func (vc *VC) rootPkg() string {
+	if vc.contract != nil {
+		return vc.contract.PkgPath
+	}
+	return ""
+}
+
+// contractFor: in-repo contracts by function key; assumed (extern) contracts only
+// from the contract file of the package being verified.
+func (vc *VC) contractFor(key string) *FuncContract {
+	if c := vc.ctx.contracts[key]; c != nil {
+		return c
+	}
+	return vc.ctx.contracts[vc.rootPkg()+"=>"+key]
+}
+
+func (vc *VC) ifaceContractFor(key string) *FuncContract {
+	if c := vc.ctx.ifaceContracts[key]; c != nil {
+		return c
+	}
+	return vc.ctx.ifaceContracts[vc.rootPkg()+"=>"+key]
+}
+
 func (vc *VC) note(format string, a ...any) {
 	s := fmt.Sprintf(format, a...)
 	for _, n := range vc.notes {
@@ -233,11 +256,11 @@ func (vc *VC) ghostVar(st *State, gv *GhostVar) (Term, types.Type, error) {
 			return Term{}, nil, err
 		}
 	}
-	key := "gv!" + gv.Name
+	key := "gv!" + gv.PkgPath + "::" + gv.Name
 	if t, ok := st.ghost[key]; ok {
 		return t, ty, nil
 	}
-	name := "G0!" + sanitize(gv.Name)
+	name := "G0!" + sanitize(gv.PkgPath+"."+gv.Name)
 	if !vc.heapInit[name] {
 		vc.heapInit[name] = true
 		vc.emitf("(declare-const %s %s)\n", name, srt)
@@ -250,7 +273,7 @@ func (vc *VC) havocGhostVar(st *State, gv *GhostVar) {
 	if err != nil {
 		return
 	}
-	st.ghost["gv!"+gv.Name] = vc.Fresh("gv_"+gv.Name, t.Sort)
+	st.ghost["gv!"+gv.PkgPath+"::"+gv.Name] = vc.Fresh("gv_"+gv.Name, t.Sort)
 }
 
 // mapHeap: maps are identified by rid of their Ref; dom: (Array Int (Array K Bool)), val: (Array Int (Array K V)), len: (Array Int Int)
